@@ -81,6 +81,7 @@ fn key_main<C: key::KeyColl>(a: &Args, tr: &mut out::Trace) {
                 inject: a.num("inject", 0) != 0,
                 snap_every: a.num("snapevery", 1) as u64,
                 clears: a.num("clears", 1) != 0,
+                clear_den: a.num("clearden", 6) as u64,
             };
             key::run_random::<C>(tr, &cfg);
         }
@@ -118,6 +119,7 @@ fn ord_main<C: ord::OrdColl>(a: &Args, tr: &mut out::Trace) {
                 inject: a.num("inject", 0) != 0,
                 snap_every: a.num("snapevery", 1) as u64,
                 clears: a.num("clears", 1) != 0,
+                clear_den: a.num("clearden", 5) as u64,
             };
             ord::run_random::<C>(tr, &cfg);
         }
